@@ -113,6 +113,8 @@ type interp struct {
 	forkHook func(st *istate, cond *aval, ifi *ssa.If) string
 	// hook: observe a map update (map, key, value)
 	mapUpdateHook func(st *istate, mu *ssa.MapUpdate, m, k, v *aval)
+	// hook: the body of a range loop is entered for its k-th element
+	elemHook func(st *istate, nx *ssa.Next, rangeOperand *aval, k int)
 	// inline: calls of these in-package functions are evaluated in place (the
 	// callee's paths fork the caller's path) instead of staying opaque terms, so
 	// that a rule sees the same thing whether a piece of code is written inline
@@ -221,7 +223,7 @@ func (in *interp) inlineCall(st *istate, c *ssa.Call) ([]*istate, bool) {
 		}
 	}
 	sub := &interp{p: in.p, f: sc, depth: in.depth + 1, maxPaths: in.maxPaths, maxVisit: in.maxVisit, structuralNames: in.structuralNames,
-		callHook: in.callHook, binopHook: in.binopHook, nextHook: in.nextHook, forkHook: in.forkHook, mapUpdateHook: in.mapUpdateHook,
+		callHook: in.callHook, binopHook: in.binopHook, nextHook: in.nextHook, forkHook: in.forkHook, mapUpdateHook: in.mapUpdateHook, elemHook: in.elemHook,
 		inline: in.inline, pfx: in.pfx + sc.Name() + "."}
 	s0 := &istate{env: map[ssa.Value]*aval{}, mem: map[ssa.Value]*aval{}, count: map[*ssa.BasicBlock]int{}, rbase: map[*ssa.BasicBlock]int{},
 		decided: map[string]bool{}, escaped: map[ssa.Value]bool{}}
@@ -641,6 +643,13 @@ func (in *interp) instr(st *istate, ins ssa.Instruction) {
 					st.env[x] = r
 					return
 				}
+			}
+			if in.elemHook != nil && x.Index >= 1 {
+				var op *aval
+				if rg, ok := nx.Iter.(*ssa.Range); ok {
+					op = in.get(st, rg.X)
+				}
+				in.elemHook(st, nx, op, st.count[nx.Block()]-st.rbase[nx.Block()])
 			}
 			// the k-th element visited by this range on this path gets its own name
 			rname := in.pfx + nx.Name()
